@@ -178,6 +178,14 @@ Desugar(t) == CASE t[1] = "L" -> t
 ParsesBack(t) == /\ TreeOf(RPN(Rewrite(Render(t, "min"), 1))) = Desugar(t)
                  /\ TreeOf(RPN(Rewrite(Render(t, "full"), 1))) = Desugar(t)
 
+\* Reflexive assignment  name op= rhs : the implementation rewrites it to  name = name op (rhs)  before the pipeline above,
+\* so it stores under `name' the value of the tree  name op rhs.
+ReflexOps == {"+", "-", "*", "/", "^"}
+IsReflexive(t) == t[1] = "B" /\ t[2] \in ReflexOps /\ t[3][1] = "L" /\ t[3][2] \in {"a", "b"}
+ReflexString(t) == IF IsReflexive(t) THEN t[3][2] \o t[2] \o "=" \o Join(Render(t[4], "min")) ELSE ""
+ReflexParsesBack(t) == IsReflexive(t) =>
+   TreeOf(RPN(Rewrite(<<t[3][2], t[2], "(">> \o Render(t[4], "min") \o <<")">>, 1))) = Desugar(t)
+
 (* ---- enumeration ---------------------------------------------------------------- *)
 LeafT == {<<"L", x>> : x \in Leaves}
 T2 == LeafT \cup {<<"B", o, l, r>> : o \in BinOps, l \in LeafT, r \in LeafT}
@@ -189,7 +197,7 @@ Code(t) == CASE t[1] = "L" -> Len(t[2]) + (IF t[2] \in Lits THEN 3 ELSE 7)
 
 FileTrees == IF Mode = "file" THEN ndJsonDeserialize(IOEnv.TRACE_FILE) ELSE <<>>
 
-Out(t) == [tree |-> t, s |-> Join(Render(t, "min")), sf |-> Join(Render(t, "full")),
+Out(t) == [tree |-> t, s |-> Join(Render(t, "min")), sf |-> Join(Render(t, "full")), rs |-> ReflexString(t),
            vals |-> [k \in DOMAIN Envs |-> Denote(t, Envs[k])]]
 Show(t) == (Emit /\ InDomain(t) /\ Code(t) % SampleMod = SampleRes) => PrintT(ToJson(Out(t)))
 
@@ -219,7 +227,7 @@ Spec == Init /\ [][Next]_vars
 (* ---- properties -------------------------------------------------------------------- *)
 \* precedence, associativity and parentheses: the implementation's splitter reads every rendered
 \* tree back as that tree
-Precedence == (Mode = "enum" /\ phase = "done") => ParsesBack(tree)
+Precedence == (Mode = "enum" /\ phase = "done") => (ParsesBack(tree) /\ ReflexParsesBack(tree))
 \* sanity of the meaning: values are well-formed rationals / tokens on every environment
 WellFormedVals == (Mode = "enum" /\ phase = "done" /\ InDomain(tree)) =>
                      \A k \in DOMAIN Envs : LET v == Denote(tree, Envs[k]) IN
